@@ -70,6 +70,8 @@ def label(act):
         s += "(%d)" % len(act.get("batch", []))
     elif s == "RollbackB":
         s += "(%d)" % act.get("n", 0)
+    elif s in ("Reopen", "Recover") and act.get("n") == 1:
+        s += "(asserted)"
     stop = act.get("stop", "none")
     if stop != "none":
         s += "[%s%s]" % (stop, act.get("sn", ""))
